@@ -250,9 +250,21 @@ package board
 //@
 //@ # ---- C03: undoing a move restores everything.  Both bodies are executed in sequence on a symbolic
 //@ # ---- board; the token r is whatever MakeMove produced.
+//@ # for the round trip the values of the e.p. capturability test and of the previous hash are immaterial
+//@ func (*Board).CanEnPassant view roundtrip
+//@   trusted read-only (frame proved in the main contract); the result is left arbitrary
+//@   modifies nothing
+//@
+//@ func (*Board).Hash view roundtrip
+//@   trusted read-only (frame proved in the main contract); the result is left arbitrary
+//@   requires len(b.hashes) >= 1
+//@   modifies nothing
+//@
 //@ scenario makeUndo(b *Board, m move.Move)
 //@   props C03
-//@   thorough-only
+//@   views roundtrip
+//@   split b.SquaresToPiece[m.From()] in 1..6
+//@   split b.SquaresToPiece[b.CaptureSq(m)] in 0..6
 //@   requires repOK(b) && lightPos(pos(b)) && movable(pos(b), uint16(m)) && len(b.hashes) >= 1 && 0 <= b.FiftyCnt
 //@   use repInstance(b, m.From())
 //@   use repInstance(b, m.To())
@@ -261,7 +273,7 @@ package board
 //@   do inline b.UndoMove(m, r)
 //@   ensures [placement] samePlacement(pos(b), old(pos(b)))
 //@   ensures [state]     b.STM == old(b.STM) && b.EnPassant == old(b.EnPassant) && b.Castles == old(b.Castles) && b.FiftyCnt == old(b.FiftyCnt) && b.fullMoves == old(b.fullMoves)
-//@   ensures [stp*]      b.SquaresToPiece == old(b.SquaresToPiece) && b.Pieces[0] == old(b.Pieces[0])
+//@   ensures [stp]      b.SquaresToPiece == old(b.SquaresToPiece) && b.Pieces[0] == old(b.Pieces[0])
 //@   ensures [history]   len(b.hashes) == old(len(b.hashes)) && implies(0 <= gi && gi < len(b.hashes), b.hashes[gi] == old(b.hashes[gi]))
 //@
 //@ lemma clocksIrrelevant(p $Pos, m $Mv)
